@@ -237,6 +237,34 @@ def Tables.complete (t : Tables) (m : Module) : Tables × List DiagClass :=
         ({ t with values := t.values.map fun (k, p) => if k == i.name then (k, i.pub) else (k, p) }, ds ++ [.dupglobal])
       else (t.addValue i.name i.pub, ds)) (t, [])
 
+/-- `importItem(node)` for the import statement number `idx` of module `name`; `rec` is the
+recursive call `analyzeModule`. -/
+def importStmt (ms : Modules) (rec : AState → String → AState) (name : String)
+    (st : AState) (idx : Nat) (imp : Import) : AState :=
+  let cur := (st.get name).getD Tables.fresh
+  match findMod ms imp.target with
+  | none =>
+    -- not a host module (and not a builtin module of the host): "Module not found", once
+    let (ds, cur') := dummyItems cur imp.items
+    (st.addDiags name (some idx) (.nomodule :: ds)).set name cur'
+  | some _ =>
+    let st := st.set name { cur with importsModules := cur.importsModules ++ [imp.target] }
+    let st :=
+      if (st.get imp.target).isSome then st
+      else
+        let st := rec st imp.target
+        if importGraphIsCyclic st.adj name then st.addDiags name (some idx) [.cyclic] else st
+    let cur := (st.get name).getD Tables.fresh
+    let tgt := if imp.target == name then none else st.get imp.target
+    let (ds, cur') := importItems tgt cur imp.items
+    (st.addDiags name (some idx) ds).set name cur'
+
+/-- The import statements of a module, in order. -/
+def importStmts (ms : Modules) (rec : AState → String → AState) (name : String) :
+    AState → Nat → List Import → AState
+  | st, _, [] => st
+  | st, idx, imp :: rest => importStmts ms rec name (importStmt ms rec name st idx imp) (idx + 1) rest
+
 /-- `analyzeModule(name)`; `fuel` bounds the nesting depth (≤ number of modules). -/
 def analyzeModule (ms : Modules) : Nat → AState → String → AState
   | 0, st, _ => st
@@ -245,26 +273,7 @@ def analyzeModule (ms : Modules) : Nat → AState → String → AState
     | none => st
     | some m =>
       let st := st.set name Tables.fresh
-      -- the import statements, in order
-      let (st, _) := m.imports.foldl (fun (acc : AState × Nat) imp =>
-        let (st, idx) := acc
-        let cur := (st.get name).getD Tables.fresh
-        match findMod ms imp.target with
-        | none =>
-          -- not a host module (and not a builtin module of the host): "Module not found", once
-          let (ds, cur') := dummyItems cur imp.items
-          (((st.addDiags name (some idx) (.nomodule :: ds)).set name cur'), idx + 1)
-        | some _ =>
-          let st := st.set name { cur with importsModules := cur.importsModules ++ [imp.target] }
-          let st :=
-            if (st.get imp.target).isSome then st
-            else
-              let st := analyzeModule ms fuel st imp.target
-              if importGraphIsCyclic st.adj name then st.addDiags name (some idx) [.cyclic] else st
-          let cur := (st.get name).getD Tables.fresh
-          let tgt := if imp.target == name then none else st.get imp.target
-          let (ds, cur') := importItems tgt cur imp.items
-          (((st.addDiags name (some idx) ds).set name cur'), idx + 1)) (st, 0)
+      let st := importStmts ms (analyzeModule ms fuel) name st 0 m.imports
       let (done, ds) := ((st.get name).getD Tables.fresh).complete m
       let st := (st.set name done).addDiags name none ds
       if m.hasMain then st else st.addDiags name none [.nomain]
